@@ -1297,4 +1297,47 @@ def representation_probes():
             "b": GraphQLArgument(inp, **kw(style, {"l": (7.0,), "i": 1.0})),
             "c": GraphQLArgument(GraphQLList(GraphQLInt), **kw(style, (1.0, 2.0)))})
         out.append((f"repr-probe:nested:{style}", GraphQLSchema(q, directives=list(specified_directives) + [d])))
+    out += shared_default_probes()
+    return out
+
+
+def shared_default_probes():
+    """ONE GraphQLDefaultInput(value=...) object reused on inputs of different types (the literal of a default
+    depends on the type of the input it sits on): both print orders, and with a history (the same default object was
+    already printed and introspected as part of another schema, on an input of the other type)."""
+    from graphql import (GraphQLArgument, GraphQLEnumType, GraphQLField, GraphQLFloat, GraphQLID, GraphQLInputField,
+                         GraphQLInputObjectType, GraphQLInt, GraphQLList, GraphQLObjectType, GraphQLSchema,
+                         GraphQLString, print_schema)
+    from graphql.type import GraphQLDefaultInput
+    from graphql.utilities import introspection_from_schema
+    enum = GraphQLEnumType("E", {"NAME": "NAME", "OTHER": "OTHER"})
+    in1 = GraphQLInputObjectType("In1", {"x": GraphQLInputField(GraphQLID), "y": GraphQLInputField(GraphQLFloat)})
+    in2 = GraphQLInputObjectType("In2", {"y": GraphQLInputField(GraphQLInt), "x": GraphQLInputField(GraphQLString)})
+    pairs = [("enum-string", enum, GraphQLString, "NAME"),
+             ("float-int", GraphQLFloat, GraphQLInt, 1.0),
+             ("id-string", GraphQLID, GraphQLString, "123"),
+             ("idlist-stringlist", GraphQLList(GraphQLID), GraphQLList(GraphQLString), ("1", "2")),
+             ("list-scalar", GraphQLList(GraphQLID), GraphQLString, "7"),
+             ("input-objects", in1, in2, {"x": "12", "y": 3})]
+
+    def schema(args):
+        return GraphQLSchema(GraphQLObjectType("Query", {"f": GraphQLField(GraphQLInt, args=args)}))
+
+    out = []
+    for name, ta, tb, v in pairs:
+        for order in ("ab", "ba"):
+            d = GraphQLDefaultInput(value=v)
+            args = {"a": GraphQLArgument(ta, default=d), "b": GraphQLArgument(tb, default=d)}
+            if order == "ba":
+                args = {"b": args["b"], "a": args["a"]}
+            out.append((f"shared-default-probe:{name}:{order}", schema(args)))
+        for first, second, tag in ((ta, tb, "history-a-then-b"), (tb, ta, "history-b-then-a")):
+            d = GraphQLDefaultInput(value=v)
+            try:   # history: the default object has been printed and introspected on an input of the other type
+                earlier = schema({"z": GraphQLArgument(first, default=d)})
+                print_schema(earlier)
+                introspection_from_schema(earlier)
+            except Exception:  # noqa: BLE001  (what the history does is not what this probe judges)
+                pass
+            out.append((f"shared-default-probe:{name}:{tag}", schema({"a": GraphQLArgument(second, default=d)})))
     return out
